@@ -860,6 +860,12 @@ Proof.
   rewrite <- H1 at 1. apply Rround_mono. unfold pmax. rnum. destruct (Rltb_spec zr zmin); lra.
 Qed.
 
+Lemma tr_plan_length_n k m rc rd n : forall p sx, (length (tr_plan k m rc rd n p sx) <= n)%nat.
+Proof.
+  induction n as [|n IH]; intros p sx; [destruct p; simpl; lia|]. destruct p as [|c p]; [simpl; lia|].
+  cbn [tr_plan length]. specialize (IH p (tr_sxbot k rc rd c)). lia.
+Qed.
+
 Theorem irrnet_lower p ztop k m smt s et0 co2c co2r gs gdd o :
   tr_wf p k s -> 1/100 <= k_Zmin k -> (m = 4%Z -> 0 <= smt <= 100 /\ layers_ok p) ->
   transpiration p ztop k m smt s et0 co2c co2r gs gdd = Some o ->
@@ -910,9 +916,7 @@ Proof.
   assert (B3 : plan_sum g_act plan th1 <= plan_sum (rnd g_act) plan th1 + 5/1000 * INR (length plan)).
   { apply plan_sum_le; [|exact He]. intros x t. unfold rnd. pose proof (rround2_err (g_act x t)). lra. }
   assert (Hlen : INR (length plan) <= INR (tr_comp_sto p rd)).
-  { apply le_INR. unfold plan. clear. generalize (tr_comp_sto p rd) (k_SxTop k). intros n. revert p.
-    induction n as [|n IH]; intros p sx; [destruct p; simpl; lia|]. destruct p as [|c p]; [simpl; lia|].
-    cbn [tr_plan length]. specialize (IH p (tr_sxbot k (s_r_cor s) rd c)). lia. }
+  { apply le_INR. apply tr_plan_length_n. }
   set (f := smt / 100) in *. assert (Hf : 0 <= f <= 1) by (unfold f; lra).
   set (Swp := plan_sum (rnd g_wp) plan th1) in *. set (Sfc := plan_sum (rnd g_fc) plan th1) in *.
   set (Sact := plan_sum (rnd g_act) plan th1) in *.
